@@ -2,6 +2,7 @@
 import os, sys, struct, math, tempfile, shutil
 import hypothesis
 from hypothesis import settings, strategies as st, HealthCheck, Phase
+import hypothesis.stateful
 from hypothesis.stateful import RuleBasedStateMachine, rule, invariant, run_state_machine_as_test
 from vlib import harness
 
@@ -72,11 +73,12 @@ class Sim(object):
     """Applies one operation to the real parameters object and to the dict model and compares.
     Used by the state machine and by replay (no Hypothesis needed)."""
 
-    def __init__(self, tmpdir):
+    def __init__(self, tmpdir, init=None):
         from xfab import parameters as P
         self.P = P
-        self.real = P.parameters()
-        self.model, self.vary, self.varl, self.steps = {}, [], [], {}
+        init = dict(init or {})
+        self.real = P.parameters(**init)            # name=value keywords of the constructor
+        self.model, self.vary, self.varl, self.steps = dict(init), [], [], {}
         self.tmp = tmpdir
         self.flags = set()
         self.fails = []
@@ -87,6 +89,10 @@ class Sim(object):
 
     def apply(self, op):
         k = op["op"]
+        if k == "construct":
+            self.__init__(self.tmp, {kk: vv for kk, vv in op["kw"]})
+            self.compare(k)
+            return self.fails
         getattr(self, "op_" + k)(op)
         self.compare(k)
         return self.fails
@@ -299,6 +305,11 @@ def make_machine(ctx, tmpdir):
                 for b, m in fails:
                     ctx.fail(b, m + " | after %d steps, last op %s" % (len(self.history), op["op"]))
                 self.dead = True
+
+        @hypothesis.stateful.initialize(kw=pairs(ident))
+        def construct(self, kw):
+            if kw:
+                self.step({"op": "construct", "kw": kw})
 
         @rule(n=names, v=values, vary=st.booleans(), can=st.booleans(), step=st.one_of(st.none(), st.floats(0.001, 1)))
         def addpar(self, n, v, vary, can, step):
